@@ -2,7 +2,7 @@
 # tools/mut.sh <prop> <file> <python-regex> <replacement> [count]  -- apply one textual change to a scratch copy of /repo and run the check
 PROP=$1; FILE=$2; PAT=$3; REP=$4; CNT=${5:-1}
 D=$(mktemp -d /var/tmp/mut_XXXXXX)
-rsync -a --exclude target --exclude .git /repo/ $D/
+rsync -a --exclude target --exclude .git ${MUT_SRC:-/repo}/ $D/
 python3 - "$D/$FILE" "$PAT" "$REP" "$CNT" <<'PY'
 import re,sys
 p,pat,rep,cnt=sys.argv[1:5]
